@@ -320,6 +320,10 @@ def any_expr(draw, depth: int, names: List[str], macro_vars: Tuple[str, ...] = (
             return ("call", draw(st.sampled_from(["size", "nofunc", "int"])), ())
         return ("call", draw(st.sampled_from(["matches", "contains", "nofunc", "size"])), (sub(), sub()))
     if c == "method":
+        if draw(st.integers(0, 7)) == 0:
+            # a macro name with the wrong number of arguments: CEL treats it as an (unknown) method call
+            n = draw(st.sampled_from([0, 1, 3]))
+            return ("method", sub(), draw(st.sampled_from(["map", "filter", "all", "exists", "exists_one"])), tuple(("var", "x") if i == 0 else sub() for i in range(n)))
         if draw(st.booleans()):
             return ("method", sub(), draw(st.sampled_from(METHODS0)), ())
         return ("method", sub(), draw(st.sampled_from(METHODS1)), (sub(),))
